@@ -164,7 +164,10 @@ and the property's quick check was run against the rewritten tree (`tools/eval_e
 `no-failing-input-found` ones are rewrites of methods covered by the source translator (§5.1b): the regenerated Gallina term
 is no longer convertible/provably equal by the recorded proof, so a proof obligation fails while correspondence and oracles
 find nothing — exactly the situation the interface prescribes that line for.  The differential-execution tie itself is
-insensitive to how the code is written.
+insensitive to how the code is written.  (The figures are those of the re-run at the end of session 3, when the source tie covered
+92 %% of the code: in the first run, with 19 %% covered, 27 of the 30 were quiet and 3 broke a tie.  That is the price of the tie by
+proof, and the interface names it: a rewrite that leaves the behaviour alone but not the generated term is reported without a failing
+input.  None of the 30 ever produced a FALSE failing input.  `C14_eq_3` could not be re-run: after the F-19 repair its patch no longer applies.)
 
 | rewrite | what was rewritten | check verdict |
 |---|---|---|
